@@ -82,3 +82,117 @@ Example C06_ex_layouts :
   (match blob_pack ex_blob true with Ok bs => len bs | Raise _ => -1 end) = 70361 /\
   (match blob_pack ex_blob false with Ok bs => len bs | Raise _ => -1 end) = 70350.
 Proof. split; vm_compute; reflexivity. Qed.
+
+(* ---- flows: the regenerated syntax of the CMS layer (gen/F_asn1.v, part "cms"), run by Prelude/PyAstMut.v in the world
+   Flow/World_cms.v, computes the model functions the theorems above are about (Proofs/Flow_cms_unpack.v, Flow_cms_pack.v).
+   `value_of` = the returned value; `packed self t ws n` = returns None and leaves the writer with node n appended. *)
+From V Require Import Prelude.PyAst.
+From V Require Import Prelude.PyWorld Prelude.PyAstMut gen.F_asn1 Flow.World_cms Proofs.Flow_cms_unpack Proofs.Flow_cms_pack.
+
+Theorem C06_flow_AlgorithmIdentifier_unpack : forall fuel cls view,
+  value_of (run_mut MW fuel k_flow_AlgorithmIdentifier_unpack [cls; VO (OReader view)])
+  = (let* (a, _) := AlgorithmIdentifier_unpack view in Ok (VO (OAlg a))).
+Proof. exact flow_AlgorithmIdentifier_unpack. Qed.
+Print Assumptions C06_flow_AlgorithmIdentifier_unpack.
+Theorem C06_flow_OtherKeyAttribute_unpack : forall fuel cls view h,
+  value_of (run_mut MW fuel k_flow_OtherKeyAttribute_unpack [cls; VO (OReader view); vopt_hdr h])
+  = (let* (a, _) := OtherKeyAttribute_unpack view h in Ok (VO (OOka a))).
+Proof. exact flow_OtherKeyAttribute_unpack. Qed.
+Print Assumptions C06_flow_OtherKeyAttribute_unpack.
+Theorem C06_flow_ContentInfo_unpack : forall fuel cls data h,
+  value_of (run_mut MW fuel k_flow_ContentInfo_unpack [cls; VB data; vopt_hdr h])
+  = (let* c := ContentInfo_unpack data h in Ok (VO (OCi c))).
+Proof. exact flow_ContentInfo_unpack. Qed.
+Print Assumptions C06_flow_ContentInfo_unpack.
+Theorem C06_flow_KEKIdentifier_unpack : forall fuel cls view,
+  value_of (run_mut MW fuel k_flow_KEKIdentifier_unpack [cls; VO (OReader view)])
+  = (let* (k, _) := KEKIdentifier_unpack view in Ok (VO (OKekId k))).
+Proof. exact flow_KEKIdentifier_unpack. Qed.
+Print Assumptions C06_flow_KEKIdentifier_unpack.
+Theorem C06_flow_RecipientInfo_unpack : forall fuel cls view,
+  value_of (run_mut MW fuel k_flow_RecipientInfo_unpack [cls; VO (OReader view)])
+  = (let* (k, _) := RecipientInfo_unpack view in Ok (VO (OKri k))).
+Proof. exact flow_RecipientInfo_unpack. Qed.
+Print Assumptions C06_flow_RecipientInfo_unpack.
+Theorem C06_flow_EncryptedContentInfo_unpack : forall fuel cls view,
+  value_of (run_mut MW fuel k_flow_EncryptedContentInfo_unpack [cls; VO (OReader view)])
+  = (let* (k, _) := EncryptedContentInfo_unpack view in Ok (VO (OEci k))).
+Proof. exact flow_EncryptedContentInfo_unpack. Qed.
+Print Assumptions C06_flow_EncryptedContentInfo_unpack.
+Theorem C06_flow_KEKRecipientInfo_unpack : forall fuel cls view h,
+  value_of (run_mut MW fuel k_flow_KEKRecipientInfo_unpack [cls; VO (OReader view); vopt_hdr h])
+  = (let* (k, _) := KEKRecipientInfo_unpack view h in Ok (VO (OKri k))).
+Proof. exact flow_KEKRecipientInfo_unpack. Qed.
+Print Assumptions C06_flow_KEKRecipientInfo_unpack.
+(* `while recipient_infos_reader:` -- the interpreter's fuel exceeds the number of octets, and the model does not exhaust its own
+   fuel (length of the SET OF content; it never does on Python bytes, see C05_flow_EnvelopedData_unpack_bytes) *)
+Theorem C06_flow_EnvelopedData_unpack : forall fuel cls data,
+  (List.length data < fuel)%nat -> EnvelopedData_unpack data <> Raise OutOfFuel ->
+  value_of (run_mut MW fuel k_flow_EnvelopedData_unpack [cls; VB data])
+  = (let* e := EnvelopedData_unpack data in Ok (VO (OEd e))).
+Proof. exact flow_EnvelopedData_unpack. Qed.
+Print Assumptions C06_flow_EnvelopedData_unpack.
+Theorem C06_flow_ProtectionDescriptor_unpack : forall fuel cls data,
+  value_of (run_mut MW fuel k_flow_ProtectionDescriptor_unpack [cls; VB data])
+  = (let* s := ProtectionDescriptor_unpack data in Ok (VO (OSidDesc s))).
+Proof. exact flow_ProtectionDescriptor_unpack. Qed.
+Print Assumptions C06_flow_ProtectionDescriptor_unpack.
+Theorem C06_flow_DPAPINGBlob_unpack : forall fuel cls data,
+  value_of (run_mut MW fuel k_flow_DPAPINGBlob_unpack [cls; VB data])
+  = (let* b := blob_unpack data in Ok (VO (OBlob b))).
+Proof. exact flow_DPAPINGBlob_unpack. Qed.
+Print Assumptions C06_flow_DPAPINGBlob_unpack.
+
+Theorem C06_flow_AlgorithmIdentifier_pack : forall fuel a t ws,
+  run_mut MW fuel k_flow_AlgorithmIdentifier_pack [VO (OAlg a); VO (OWriter t ws)]
+  = packed (VO (OAlg a)) t ws (AlgorithmIdentifier_pack a).
+Proof. exact flow_AlgorithmIdentifier_pack. Qed.
+Print Assumptions C06_flow_AlgorithmIdentifier_pack.
+Theorem C06_flow_OtherKeyAttribute_pack : forall fuel a t ws,
+  run_mut MW fuel k_flow_OtherKeyAttribute_pack [VO (OOka a); VO (OWriter t ws)]
+  = packed (VO (OOka a)) t ws (OtherKeyAttribute_pack a).
+Proof. exact flow_OtherKeyAttribute_pack. Qed.
+Print Assumptions C06_flow_OtherKeyAttribute_pack.
+Theorem C06_flow_ContentInfo_pack : forall fuel c t ws,
+  run_mut MW fuel k_flow_ContentInfo_pack [VO (OCi c); VO (OWriter t ws)]
+  = packed (VO (OCi c)) t ws (ContentInfo_pack c).
+Proof. exact flow_ContentInfo_pack. Qed.
+Print Assumptions C06_flow_ContentInfo_pack.
+Theorem C06_flow_RecipientInfo_pack : forall fuel self writer,
+  run_mut MW fuel k_flow_RecipientInfo_pack [self; writer] = Raise NotImplementedError.
+Proof. exact flow_RecipientInfo_pack. Qed.
+Print Assumptions C06_flow_RecipientInfo_pack.
+Theorem C06_flow_KEKIdentifier_pack : forall fuel k t ws,
+  run_mut MW fuel k_flow_KEKIdentifier_pack [VO (OKekId k); VO (OWriter t ws)]
+  = packed (VO (OKekId k)) t ws (KEKIdentifier_pack k).
+Proof. exact flow_KEKIdentifier_pack. Qed.
+Print Assumptions C06_flow_KEKIdentifier_pack.
+Theorem C06_flow_KEKRecipientInfo_pack : forall fuel r t ws,
+  run_mut MW fuel k_flow_KEKRecipientInfo_pack [VO (OKri r); VO (OWriter t ws)]
+  = packed (VO (OKri r)) t ws (KEKRecipientInfo_pack r).
+Proof. exact flow_KEKRecipientInfo_pack. Qed.
+Print Assumptions C06_flow_KEKRecipientInfo_pack.
+Theorem C06_flow_EncryptedContentInfo_pack : forall fuel e t ws,
+  run_mut MW fuel k_flow_EncryptedContentInfo_pack [VO (OEci e); VO (OWriter t ws)]
+  = packed (VO (OEci e)) t ws (EncryptedContentInfo_pack e).
+Proof. exact flow_EncryptedContentInfo_pack. Qed.
+Print Assumptions C06_flow_EncryptedContentInfo_pack.
+Theorem C06_flow_EnvelopedData_pack : forall fuel e t ws,
+  run_mut MW fuel k_flow_EnvelopedData_pack [VO (OEd e); VO (OWriter t ws)]
+  = packed (VO (OEd e)) t ws (EnvelopedData_pack e).
+Proof. exact flow_EnvelopedData_pack. Qed.
+Print Assumptions C06_flow_EnvelopedData_pack.
+Theorem C06_flow_ProtectionDescriptor_pack : forall fuel sid,
+  run_mut MW fuel k_flow_ProtectionDescriptor_pack [VO (OSidDesc sid)]
+  = (let* b := ProtectionDescriptor_pack sid in Ok (VB b, [VO (OSidDesc sid)])).
+Proof. exact flow_ProtectionDescriptor_pack. Qed.
+Print Assumptions C06_flow_ProtectionDescriptor_pack.
+Theorem C06_flow_ProtectionDescriptor_parse : forall fuel cls value,
+  run_mut MW fuel k_flow_ProtectionDescriptor_parse [cls; VS value] = Ok (VO (OSidDesc value), [cls; VS value]).
+Proof. exact flow_ProtectionDescriptor_parse. Qed.
+Print Assumptions C06_flow_ProtectionDescriptor_parse.
+Theorem C06_flow_DPAPINGBlob_pack : forall fuel b (bie : bool),
+  run_mut MW fuel k_flow_DPAPINGBlob_pack [VO (OBlob b); vb bie]
+  = (let* x := blob_pack b bie in Ok (VB x, [VO (OBlob b); vb bie])).
+Proof. exact flow_DPAPINGBlob_pack. Qed.
+Print Assumptions C06_flow_DPAPINGBlob_pack.
